@@ -16,7 +16,8 @@ INT32_EDGES = [0, 1, -1, 127, 128, -128, 255, 256, -256, 32767, 32768, -32768, 6
 
 EXC_SERIAL = ['SerialException', 'SerialTimeoutException', 'PortNotOpenError']
 EXC_ALL = EXC_SERIAL + ['OSError', 'IOError', 'RuntimeError', 'TimeoutError', 'BrokenPipeError', 'RecursionError',
-                        'OSError:EINTR', 'OSError:EAGAIN', 'SerialException:EAGAIN']
+                        'OSError:EINTR', 'OSError:EAGAIN', 'SerialException:EAGAIN',
+                        'OSError()', 'SerialException()', 'RuntimeError()']
 
 # request names for which command()/query() deliberately ignore a dropped link
 IGNORED_NAMES = ('rb', 'r', 'bl')
@@ -27,7 +28,7 @@ CMD_TEXTS = ['T3,1,0,0,0,0,0,0,3', 'L3,1,2,3,4,5,6,7,8,9,10,11,12', 'S2,0,4', 'S
              'SC,4,16000', 'SC,10,65535', 'CS', 'SR,60000', 'SR,0,1', 'PO,B,3,1', 'PD,B,3,0', 'SL,7,2',
              'SL,255,31', 'T3,1,0,0,0,0,0,0,3', 'HM,1000', 'HM,1000,0,500', 'CU,50,0', 'CU,1,1',
              'LM,100,5,0,200,-5,0', 'O,1,2', 'O,0', 'C,1,2,3,4', 'N', 'S', 'S,2,3', 'ND', 'NI', 'ES',
-             'ST,abc', 'ST,50% done', 'ST,A%B', 'ST,100%', 'ST,%s%d', 'X', 'X,1', 'Z', 'RZ', 'RZ,1,2', 'RM,7', 'BX,1', 'ST,Studio  East', 'ST,a \t b', 'ST,x  y   z']
+             'ST,abc', 'ST,' + 'x' * 60, 'ST,' + 'y' * 61, 'ST,' + 'z' * 62, 'ST,' + 'w' * 125, 'ST,50% done', 'ST,A%B', 'ST,100%', 'ST,%s%d', 'X', 'X,1', 'Z', 'RZ', 'RZ,1,2', 'RM,7', 'BX,1', 'ST,Studio  East', 'ST,a \t b', 'ST,x  y   z']
 QRY_TEXTS = ['RQ', 'RQ,1', 'QL,3', 'QL,0', 'QL,31', 'QL', 'QS', 'QE', 'QC', 'QT', 'V', 'QG', 'PI,B,1', 'PI,B,0', 'QM', 'I',
              'MR', 'QP', 'QB', 'QU,4', 'QR', 'QN', 'A', 'Q', 'Q,1', 'I,1']
 WRONG_LINES = ['OK', 'QT,abc', 'QG,3E', 'SM', 'QL,17', 'QS,5,-5', 'EBBv13_and_above EB Firmware Version 3.0.2',
@@ -366,6 +367,20 @@ def pair_faults(scn, oid, delays=(1, 2, 25), exc_classes=('SerialException', 'OS
                     for exc in exc_classes:
                         yield {'reply': plan['reply'], 'io': [{'at': [oid, k], 'kind': 'raise', 'exc': exc}]}
                     yield {'reply': plan['reply'], 'io': [{'at': [oid, k], 'kind': 'unplug'}]}
+
+
+def raise_pairs(rec, first=('SerialException', 'OSError'), second=('OSError', 'SerialException', 'RuntimeError')):
+    """Two exceptions in one call: at I/O event k1, and at a later I/O event k2 - which, on code that stops
+    after the first one, never happens (then the second directive is inert).  k2 runs two events past the
+    fault-free length, so that clean-up calls made only on the failure path (a close, a flush) are hit too."""
+    oid = rec['id']
+    n = len(rec['io'])
+    for k1 in range(1, n + 1):
+        for k2 in range(k1 + 1, min(n, k1 + 3) + 3):
+            for e1 in first[:1] if k2 > k1 + 2 else first:
+                for e2 in second:
+                    yield {'io': [{'at': [oid, k1], 'kind': 'raise', 'exc': e1},
+                                  {'at': [oid, k2], 'kind': 'raise', 'exc': e2}]}
 
 
 def single_faults(rec, exc_classes=EXC_ALL, reply_kinds=None, names=None):
